@@ -35,13 +35,13 @@ def type_ok(name, r, c):
 def jobs(tier):
     stubs = gen_stubs()
     J = []
-    ins = [(2, 2, 2), (3, 3, 1), (1, 1, 2), (1, 2, 1), (2, 2, 0)]
+    ins = [(2, 2, 2), (3, 3, 1), (1, 1, 2), (1, 2, 1), (2, 2, 0), (0, 0, 1)]
     if tier != "quick":
-        ins += [(3, 3, 2), (1, 3, 2), (2, 1, 1), (0, 0, 1)]
+        ins += [(3, 3, 2), (1, 3, 2), (2, 1, 1)]
     T = dict(UNDEF=0, S=1, T=2, U=3, Z=4, Y=5, H=6, G=7, A=8, B=9, ZIN=10, BAD=11)
     if tier == "quick":
         pairs = [(a, b) for a in ("S", "Z", "T", "H") for b in ("S", "Z", "Y", "T", "A", "ZIN", "BAD")] + \
-            [("ZIN", "S"), ("UNDEF", "S"), ("Y", "ZIN"), ("U", "ZIN"), ("B", "G")]
+            [("ZIN", "S"), ("UNDEF", "S"), ("Y", "ZIN"), ("U", "ZIN"), ("B", "G"), ("ZIN", "ZIN"), ("UNDEF", "UNDEF")]
     else:
         names = ["UNDEF", "S", "T", "U", "Z", "Y", "H", "G", "A", "B", "ZIN"]
         pairs = [(a, b) for a in names for b in names + ["BAD"]]
@@ -61,7 +61,7 @@ def jobs(tier):
             for (a, b) in pairs:
                 if not type_ok(a, r, c):
                     continue
-                if tier == "quick" and (r, c, f) not in ((2, 2, 2), (3, 3, 1)) and (a, b) not in (("S", "ZIN"), ("S", "Z")):
+                if tier == "quick" and (r, c, f) not in ((2, 2, 2), (3, 3, 1)) and (a, b) not in (("S", "ZIN"), ("S", "Z"), ("ZIN", "ZIN"), ("UNDEF", "UNDEF")):
                     continue
                 d = base + ["-DH_FROM=%d" % T[a], "-DH_TO=%d" % T[b]]
                 J.append(V.Job("convert.%s_%sto%s" % (C15.tag(base), a, b), H, "h_convert", SRCS + [stubs], defines=d,
